@@ -1,0 +1,81 @@
+// Copyright 2021-2022 Buf Technologies, Inc.
+//
+// Licensed under the Apache License, Version 2.0 (the "License");
+// you may not use this file except in compliance with the License.
+// You may obtain a copy of the License at
+//
+//      http://www.apache.org/licenses/LICENSE-2.0
+//
+// Unless required by applicable law or agreed to in writing, software
+// distributed under the License is distributed on an "AS IS" BASIS,
+// WITHOUT WARRANTIES OR CONDITIONS OF ANY KIND, either express or implied.
+// See the License for the specific language governing permissions and
+// limitations under the License.
+
+//go:build verif
+
+package connect
+
+import (
+	"bytes"
+	"context"
+)
+
+// VerifHooks are seams for deterministic simulation. They exist only in
+// builds with the verif tag and are nil (inactive) unless a simulator sets
+// them.
+var VerifHooks struct { //nolint:gochecknoglobals
+	// Yield is called at named synchronisation points of a client call, with
+	// the call's context.
+	Yield func(ctx context.Context, point string)
+	// BufferGet may supply a pooled buffer (nil: use the default pool).
+	BufferGet func(pool any) *bytes.Buffer
+	// BufferRelease observes every buffer handed to Put, before it is reset.
+	BufferRelease func(pool any, buffer *bytes.Buffer)
+	// BufferPut may take ownership of a reset buffer (false: default pool).
+	BufferPut func(pool any, buffer *bytes.Buffer) bool
+	// PoolGet/PoolPut do the same for decompressors (kind 0) and compressors
+	// (kind 1).
+	PoolGet func(pool any, kind int) any
+	PoolPut func(pool any, kind int, value any) bool
+}
+
+func verifYield(ctx context.Context, point string) {
+	if hook := VerifHooks.Yield; hook != nil {
+		hook(ctx, point)
+	}
+}
+
+func verifBufGet(pool *bufferPool) *bytes.Buffer {
+	if hook := VerifHooks.BufferGet; hook != nil {
+		return hook(pool)
+	}
+	return nil
+}
+
+func verifBufRelease(pool *bufferPool, buffer *bytes.Buffer) {
+	if hook := VerifHooks.BufferRelease; hook != nil {
+		hook(pool, buffer)
+	}
+}
+
+func verifBufPut(pool *bufferPool, buffer *bytes.Buffer) bool {
+	if hook := VerifHooks.BufferPut; hook != nil {
+		return hook(pool, buffer)
+	}
+	return false
+}
+
+func verifPoolGet(pool *compressionPool, kind int) any {
+	if hook := VerifHooks.PoolGet; hook != nil {
+		return hook(pool, kind)
+	}
+	return nil
+}
+
+func verifPoolPut(pool *compressionPool, kind int, value any) bool {
+	if hook := VerifHooks.PoolPut; hook != nil {
+		return hook(pool, kind, value)
+	}
+	return false
+}
